@@ -153,6 +153,10 @@ NT = 8
 DANGLING = (1 << 64) - 1
 
 
+DERIVED_BUNDLES = {10: (1, 2), 11: (2, 1), 12: (0, 4, 3), 13: (6, 5, 7, 1), 14: (3,), 15: (1, 1)}
+DERIVED_BY_TYPES = {v: k for k, v in DERIVED_BUNDLES.items() if k != 15}
+
+
 class BEnc(list):
     """encoding of a bundle; emit() records where it lands so that a twin script can permute it"""
 
@@ -205,8 +209,13 @@ class WorldGen:
                 return ts
         return (1,)
 
-    def bundle(self, types=None, allow_dup=False):
-        """returns (encoding, types)"""
+    def bundle(self, types=None, allow_dup=False, derived=True):
+        """returns (encoding, types, has repeated types)"""
+        if derived and types is None and self.r.random() < 0.12:
+            # a derived Bundle struct (kinds 10..15; 15 names a type twice): fields in the declared order
+            kind = self.r.choice([10, 11, 12, 13, 14, 15] if allow_dup else [10, 11, 12, 13, 14])
+            ts = DERIVED_BUNDLES[kind]
+            return BEnc([kind, len(ts)] + [x for t in ts for x in (t, self.val())]), list(ts), kind == 15
         if allow_dup and self.r.random() < 0.5:
             ts = self.r.choice([(1, 1), (2, 2), (3, 3), (1, 2, 1)])
             return BEnc([0, len(ts)] + [x for t in ts for x in (t, self.val())]), list(ts), True
@@ -394,14 +403,25 @@ class WorldGen:
         elif op == 13:
             ts = self.static_tuple()
             n = r.choice([0, 1, 2, 3, 5])
-            self.emit(14, w, len(ts), list(ts), n, [self.val() for _ in range(n * len(ts))])
+            vals = [self.val() for _ in range(n * len(ts))]
+            c = r.random()
+            if c < 0.2:
+                self.emit(17, w, len(ts), list(ts), n, vals)                    # Extend
+            elif c < 0.45:
+                self.emit(18, w, r.randrange(0, n + 1), len(ts), list(ts), n, vals)   # iterator dropped early
+            else:
+                self.emit(14, w, len(ts), list(ts), n, vals)
             self.materialise(w)
             self.add(w, True, ts, n=n)
         elif op in (14, 15):
             ts = self.pick_types(r.choice([0, 1, 2, 2, 3]))
             n = r.choice([0, 1, 2, 3, 4, 6])
             if op == 14:
-                self.emit(15, w, len(ts), ts, n, [self.val() for _ in range(n * len(ts))])
+                vals = [self.val() for _ in range(n * len(ts))]
+                if r.random() < 0.3:
+                    self.emit(19, w, r.randrange(0, n + 1), len(ts), ts, n, vals)   # iterator dropped early
+                else:
+                    self.emit(15, w, len(ts), ts, n, vals)
                 self.materialise(w)
                 self.add(w, True, ts, n=n)
             else:
@@ -479,9 +499,10 @@ def nontrivial_world(case, obs):
 
 WORLD_RULE = ("engine world: seeded scripts of 4..140 operations over two worlds and 8 component layouts (ZST, "
               "ZST with alignment 8, 4/8-byte, heap-owning, align-64, 24-byte align-1, 320-byte): spawn (static tuples in "
-              "any field order from a 68-type catalogue, EntityBuilder bundles), spawn_at, insert, remove, exchange, "
+              "any field order from a 68-type catalogue, 6 derived Bundle structs, EntityBuilder bundles), spawn_at, insert, remove, exchange, "
               "despawn, take (dropped / moved to the other world), clear, reserve_entity/entities, flush, reserve::<T>, "
-              "spawn_batch, spawn_column_batch(_at); handles named by table index or forged bit patterns; mostly-valid "
+              "spawn_batch, spawn_column_batch(_at) (iterators consumed fully or dropped after k handles), Extend; handles named by table "
+              "index or forged bit patterns; single-component calls go through insert_one/remove_one/exchange_one; mostly-valid "
               "stream plus a share of invalid calls (dead/foreign/forged/reserved handles, missing components, repeated "
               "types). After every k-th operation both sides dump len, iteration, archetypes with row order, the "
               "allocator's meta/pending/cursor (cfg(hecs_verif) snapshot) and probe contains/entity/get/view for a set "
@@ -586,6 +607,10 @@ def twin_case(universe, rnd, profile, nops):
         if kind == 0:
             # exchange's static T must stay inside its own (smaller) catalogue: only switch to a builder
             nk = 2 if rnd.random() < 0.5 else (0 if ts in TUPLE_SET and ts in set(EXT) | {()} else 2)
+        elif kind >= 10:
+            # a derived struct: its twin is a tuple in another field order, another derived struct, or a builder
+            nk = DERIVED_BY_TYPES[ts] if ts in DERIVED_BY_TYPES and ts != DERIVED_BUNDLES[kind] and rnd.random() < 0.5 \
+                else (0 if ts in TUPLE_SET and ts in set(EXT) | {()} and rnd.random() < 0.6 else 2)
         else:
             nk = 0 if ts in set(EXT) and rnd.random() < 0.6 else 2
         b[off] = nk
@@ -848,8 +873,11 @@ def guard_case(universe, rnd, nworld, nguard, conflict_free=False):
         elif c < 0.75:
             h, _ = g.href(w, r.random() < 0.9)
             g.emit(106, w, h, r.randrange(4), 1 if r.random() < 0.4 else 0); slots.append(dict(kind="r?", qidx=0, w=w))
-        elif c < 0.79 and slots:
+        elif c < 0.78 and slots:
             i = r.randrange(len(slots)); g.emit(107, i); slots.append(dict(kind="r?", qidx=0, w=w))
+        elif c < 0.79 and slots:
+            rs = [i for i, s_ in enumerate(slots) if s_["kind"] == "r?"]
+            g.emit(116, r.choice(rs) if rs and r.random() < 0.85 else r.randrange(len(slots)))
         elif c < 0.85:
             h, _ = g.href(w, r.random() < 0.9)
             qi = pick_q(); g.emit(108, w, h, qargs(qi)); slots.append(dict(kind="o", qidx=qi, w=w))
